@@ -99,7 +99,7 @@ def main():
         lines[ln] = new
         open(p, "w").write("\n".join(lines))
         props = sorted(set(props_of.get(f, []) + EXTRA.get(f, [])))
-        r = run(["/verif/check"] + props, env=env, cwd="/verif")
+        r = run([os.environ.get("PGCHECK_BIN", "/verif/check")] + props, env=env, cwd="/verif")
         fired = sorted(set(l.split()[0] for l in r.stdout.splitlines() if re.match(r"^C\d\d\.", l) and "/" in l))
         status = "BUILD-FAILED" if any("extract/" in x for x in fired) else ("KILLED" if fired else "SURVIVED")
         fh.write(json.dumps({"file": f, "line": ln + 1, "old": old.strip(), "new": new.strip(), "props": props, "status": status,
